@@ -30,7 +30,7 @@ pub fn def() -> PropDef {
         ],
         parts: vec![
             Part { name: "enumerated-cuts", cfg_len: 1, tape_max: 0, quick: 1_400, thorough: 1_400, max_shrink_iters: 50, run: run_enumerated },
-            Part { name: "random-faults", cfg_len: 1, tape_max: 160, quick: 12_000, thorough: 400_000, max_shrink_iters: 400, run: run_random },
+            Part { name: "random-faults", cfg_len: 1, tape_max: 160, quick: 100_000, thorough: 3_000_000, max_shrink_iters: 400, run: run_random },
         ],
     }
 }
